@@ -338,6 +338,16 @@ func runWorkerEnv(race bool, cpu int, outDir string, extra []string, args ...str
 		"VERIF_SHRINKTIME="+env("VERIF_SHRINKTIME", shrinkTime),
 		"VERIF_KNOWN="+strings.Join(knownIDs, ","))
 	e = append(e, extra...)
+	for _, x := range extra {
+		if x == "VERIF_PARALLEL=1" {
+			// A worker that is not pinned and has four Ps: the schedule is the
+			// same (one simulated thread at a time), but threads the scheduler
+			// had to detach (blocked or spinning in primitives it does not own)
+			// then run truly in parallel with the scheduled one.
+			e = append(e, "GOMAXPROCS=4")
+			return run(outDir, e, workerPath(race), args...)
+		}
+	}
 	full := append([]string{"-c", strconv.Itoa(cpu % runtime.NumCPU()), workerPath(race)}, args...)
 	return run(outDir, e, "taskset", full...)
 }
@@ -354,11 +364,12 @@ func subFor(spec propSpec, id string) (sub, bool) {
 }
 
 type failFile struct {
-	Property string `json:"property"`
-	Sub      string `json:"check"`
-	Class    string `json:"class"`
-	Detail   string `json:"detail"`
-	Hash     string `json:"event_log_fingerprint"`
+	TimingDependent bool   `json:"timing_dependent"`
+	Property        string `json:"property"`
+	Sub             string `json:"check"`
+	Class           string `json:"class"`
+	Detail          string `json:"detail"`
+	Hash            string `json:"event_log_fingerprint"`
 }
 
 func readFail(path string) (failFile, error) {
@@ -383,7 +394,11 @@ func replayOnce(spec propSpec, path string, wd string) (int, string) {
 		return 2, fmt.Sprintf("replay file names check %q, which this property does not have", ff.Sub)
 	}
 	abs, _ := filepath.Abs(path)
-	out, err := runWorker(s.Race, 0, filepath.Join(scratch, "replay"), "-prop", s.ID, "-replay", abs, "-watchdog", wd)
+	var xenv []string
+	if ff.TimingDependent {
+		xenv = []string{"VERIF_PARALLEL=1"} // as the worker that found it: real parallelism for detached threads
+	}
+	out, err := runWorkerEnv(s.Race, 0, filepath.Join(scratch, "replay"), xenv, "-prop", s.ID, "-replay", abs, "-watchdog", wd)
 	code := 0
 	if ee, ok := err.(*exec.ExitError); ok {
 		code = ee.ExitCode()
@@ -419,12 +434,18 @@ func doReplay(id string, spec propSpec, path string) int {
 	case 0:
 		return 0
 	}
+	if crashInCodeUnderTest(code, out) {
+		fmt.Printf("violation class=crash: the process dies of a fatal error inside the code under test\n")
+		fmt.Printf("VIOLATION property=%s replay=%s\n", id, path)
+		return 1
+	}
 	return 2
 }
 
 // ---------------------------------------------------------------- batch
 
 type workerResult struct {
+	env   []string
 	sub   sub
 	idx   int
 	dir   string
@@ -540,13 +561,26 @@ func runCheck(id string, spec propSpec, tier string, seed uint64) int {
 			n = 1
 		}
 		for i := 0; i < per; i++ {
-			wr := &workerResult{sub: s, idx: i, dir: filepath.Join(scratch, strings.ReplaceAll(s.ID, "/", "_")+"-w"+strconv.Itoa(i))}
+			wr := &workerResult{env: xenv, sub: s, idx: i, dir: filepath.Join(scratch, strings.ReplaceAll(s.ID, "/", "_")+"-w"+strconv.Itoa(i))}
 			results = append(results, wr)
 			wg.Add(1)
+			if s.Race && i%8 == 7 {
+				// every eighth worker of a threaded check runs unpinned with 4 Ps
+				xenv = append(append([]string(nil), xenv...), "VERIF_PARALLEL=1")
+				wr.env = xenv
+			}
+			wn := n
+			if s.Race && i%8 == 7 && wn >= 10 {
+				wn /= 10 // the unpinned workers are about ten times slower
+			}
 			go func(wr *workerResult, cpu, n int, xenv []string) {
 				defer wg.Done()
 				wseed := seed*64 + uint64(wr.idx) + 1
-				out, err := runWorkerEnv(wr.sub.Race, cpu, wr.dir, xenv, "-prop", wr.sub.ID, "-runs", strconv.Itoa(n), "-seed", strconv.FormatUint(wseed, 10), "-out", wr.dir)
+				budget := "150s"
+				if tier == "thorough" {
+					budget = "90m"
+				}
+				out, err := runWorkerEnv(wr.sub.Race, cpu, wr.dir, xenv, "-prop", wr.sub.ID, "-budget", env("VERIF_WORKER_BUDGET", budget), "-runs", strconv.Itoa(n), "-seed", strconv.FormatUint(wseed, 10), "-out", wr.dir)
 				mu.Lock()
 				defer mu.Unlock()
 				wr.out = out
@@ -562,7 +596,7 @@ func runCheck(id string, spec propSpec, tier string, seed uint64) int {
 						wr.stats = &sf
 					}
 				}
-			}(wr, cpu, n, xenv)
+			}(wr, cpu, wn, xenv)
 			cpu++
 		}
 	}
@@ -627,6 +661,23 @@ func runCheck(id string, spec propSpec, tier string, seed uint64) int {
 				trouble("worker %s/%d hit the watchdog and the simulator cannot decide why (blocked in a primitive it does not own?):\n%s", wr.sub.ID, wr.idx, tail(out, 80))
 			}
 		default:
+			// The worker process died. If it died of a fatal error inside the
+			// code under test (stack overflow, ...), re-execute the run it was in
+			// with its choices captured, and make that the replay file.
+			if violations >= 3 {
+				violations++
+				continue
+			}
+			if crash := captureCrash(spec, wr, seed); crash != "" {
+				code, out := replayOnce(spec, crash, "20s")
+				if crashInCodeUnderTest(code, out) {
+					dst := saveReplay(id, seed, fmt.Sprintf("%s-w%d-crash", strings.ReplaceAll(wr.sub.ID, "/", "_"), wr.idx), crash)
+					fmt.Printf("violation class=crash: the process dies of a fatal error inside the code under test\n%s\n", firstLines(out, 12))
+					violationLines = append(violationLines, fmt.Sprintf("VIOLATION property=%s replay=%s", id, dst))
+					violations++
+					continue
+				}
+			}
 			trouble("worker %s/%d failed (exit %d):\n%s", wr.sub.ID, wr.idx, wr.code, tail(wr.out, 80))
 		}
 	}
@@ -690,7 +741,70 @@ func loadFindings() findingsFile {
 // running (not parked in a synchronisation primitive) inside mds code: a call
 // that spins. A goroutine blocked in a primitive the simulator does not own is
 // something the simulator cannot decide.
+// crashInCodeUnderTest: the worker died (not one of its own exit codes) with a
+// Go fatal error whose trace goes through mds code.
+func crashInCodeUnderTest(code int, out string) bool {
+	if code == 0 || code == 1 || code == 3 || code == 4 {
+		return false
+	}
+	if !strings.Contains(out, "fatal error:") && !strings.Contains(out, "goroutine stack exceeds") {
+		return false
+	}
+	return strings.Contains(out, "github.com/creachadair/mds/") && !strings.Contains(out, "VERIF-HARNESS")
+}
+
+func firstLines(s string, n int) string {
+	lines := strings.Split(s, "\n")
+	if len(lines) > n {
+		lines = lines[:n]
+	}
+	return strings.Join(lines, "\n")
+}
+
+// captureCrash re-runs a worker that died up to and including the run it was
+// in, streaming that run's choices to disk, and returns the path of a replay
+// file built from them ("" if that did not work out).
+func captureCrash(spec propSpec, wr *workerResult, seed uint64) string {
+	if !crashInCodeUnderTest(wr.code, wr.out) {
+		return ""
+	}
+	b, err := os.ReadFile(filepath.Join(wr.dir, "runindex"))
+	if err != nil || len(b) < 8 {
+		return ""
+	}
+	k := int(binary.LittleEndian.Uint64(b))
+	if k < 1 {
+		return ""
+	}
+	dir := wr.dir + "-capture"
+	wseed := seed*64 + uint64(wr.idx) + 1
+	runWorkerEnv(wr.sub.Race, 0, dir, wr.env, "-prop", wr.sub.ID, "-runs", strconv.Itoa(k), "-seed", strconv.FormatUint(wseed, 10), "-out", dir, "-capture", strconv.Itoa(k))
+	lines, err := os.ReadFile(filepath.Join(dir, "captured.jsonl"))
+	if err != nil || len(lines) == 0 {
+		return ""
+	}
+	var choices []json.RawMessage
+	for _, l := range strings.Split(strings.TrimSpace(string(lines)), "\n") {
+		if json.Valid([]byte(l)) {
+			choices = append(choices, json.RawMessage(l))
+		}
+	}
+	ff := map[string]any{"property": strings.SplitN(wr.sub.ID, "/", 2)[0], "check": wr.sub.ID, "seed": wseed, "class": "crash",
+		"detail": "the process dies of a fatal error (for example a stack overflow) inside the code under test; the choices are those drawn up to that point", "choices": choices, "minimised": false}
+	out, _ := json.MarshalIndent(ff, "", " ")
+	path := filepath.Join(dir, "crash.json")
+	if os.WriteFile(path, out, 0o644) != nil {
+		return ""
+	}
+	return path
+}
+
 func hangInCodeUnderTest(out string) bool {
+	if i := strings.Index(out, "others_parked="); i >= 0 && !strings.HasPrefix(out[i:], "others_parked=0") {
+		// Other simulated threads are parked mid-work: the spinning thread may be
+		// waiting for one of them (a spin lock); the simulator cannot decide.
+		return false
+	}
 	for _, block := range strings.Split(out, "\n\n") {
 		if !strings.HasPrefix(block, "goroutine ") {
 			continue
